@@ -7,7 +7,7 @@ from specgen import valid_spec, valid_sites_spec, valid_sites_list
 
 INT_FORMATS = [None, "int32", "int64", "int8", "int16", "uint8", "uint32", "uint64"]
 NUM_FORMATS = [None, "float", "double"]
-STR_FORMATS = [None, "email", "uri", "url", "date", "date-time", "uuid", "password", "hostname"]
+STR_FORMATS = [None, "email", "uri", "url", "date", "date-time", "uuid", "password", "hostname", "int64", "double", "int32", "uint8", "datetime"]
 PATTERNS = [None, "^a+$", "b", "^[0-9]{3}$", "(?=x)y"]
 STRINGS = ["", "a", "aa", "aaa", "aaaa", "aab", "abc", "b", "123", "1234", "é", "éé", "ééé", "éééé", "日本", "😀😀", "😀😀😀", "😀😀😀😀",
            "a@b.co", "not-an-email", "http://x.y/z", "nope", "2020-01-02", "2020-01-02T03:04:05Z", "123e4567-e89b-12d3-a456-426614174000"]
